@@ -325,6 +325,25 @@ def translate_sync():
     info["mpRetryDue"] = c
     return defs, info
 
+def translate_timer():
+    """the deadline `Timer::reset` sets (consensus/src/timer.rs) and the places `Core` resets its timer"""
+    tm = strip_comments(open(f"{REPO}/consensus/src/timer.rs").read())
+    body = norm(fn_body(tm, "reset"))
+    m = re.fullmatch(r'self\.sleep \.as_mut\(\) \.reset\((.+)\);', body) or re.fullmatch(r'self\.sleep\.as_mut\(\)\.reset\((.+)\);', body)
+    if not m: raise NotTranslatable("Timer::reset: expected a single `self.sleep.as_mut().reset(DEADLINE);`, found `" + body + "`")
+    e = m.group(1)
+    e2 = re.sub(r'Instant::now\(\)', 'NOW', e)
+    e2 = re.sub(r'Duration::from_millis\(self\.duration\)', 'DURATION', e2)
+    t = parse(e2, {"NOW": "now", "DURATION": "duration"})
+    nb = norm(fn_body(tm, "new"))
+    if not re.search(r'sleep\(Duration::from_millis\(duration\)\)', nb):
+        raise NotTranslatable("Timer::new: `sleep(Duration::from_millis(duration))` not found")
+    core = strip_comments(open(f"{REPO}/consensus/src/core.rs").read())
+    for fn in ("local_timeout_round", "advance_round", "run"):
+        if not re.search(r'self\.timer\.reset\(\);', norm(fn_body(core, fn))):
+            raise NotTranslatable(f"{fn}: `self.timer.reset()` not found")
+    return [("timerDeadline", ["now", "duration"], "nat", lean(t, "prop"), f"Timer::reset: the new deadline  (`reset({e})`)")], {"timerDeadline": e}
+
 def lean_mixed(t):
     """Bool-valued rendering where variables may already be Bool"""
     if t[0] == 'var': return t[1]
@@ -344,7 +363,9 @@ def render(defs):
             continue
         ps = " ".join(params)
         out.append(f"/-- {doc} -/")
-        if kind == "prop":
+        if kind == "nat":
+            out.append(f"@[reducible] def {name} ({ps} : Nat) : Nat := {body}")
+        elif kind == "prop":
             out.append(f"@[reducible] def {name} ({ps} : Nat) : Prop := {body}")
             out.append(f"instance ({ps} : Nat) : Decidable ({name} {ps}) := by unfold {name}; infer_instance")
         else:
@@ -363,6 +384,8 @@ def main():
         defs += d3; info.update(i3)
         d4, i4 = translate_sync()
         defs += d4; info.update(i4)
+        d5, i5 = translate_timer()
+        defs += d5; info.update(i5)
     except NotTranslatable as e:
         print("NOT-TRANSLATABLE: " + str(e)); sys.exit(3)
     changed = write_if_changed(out, render(defs))
